@@ -883,6 +883,9 @@ func runC09(c *Ctx) {
 		{"autoload-loop-empty", "for true {}", "deadline"},
 		{"autoload-rec", "func f(n){f(n+1)}; f(0)", "depth deadline"},
 	} {
+		if p.kind == "autoload-rec" && !c.Thorough() {
+			continue
+		}
 		pcts := []int{2, 100, 130}
 		if c.Thorough() {
 			pcts = []int{1, 2, 10, 50, 90, 100, 101, 110, 130, 300}
